@@ -118,9 +118,16 @@ def run(run: common.Run):
         descr_s = ([f'S{k + 1}' for k in range(nb)] if case['descr'] == 'src' else None)
         if case['dup_descr']:
             descr_r = ['SR'] * nb
+        sn, rn, dt = case['src_nodata'], case['ref_nodata'], 'float32'
+        if case['i'] % 8 == 5:
+            # 64-bit files whose nodata value is no float32 number (0.1, -1e30): the blocks are read as float32, and the nodata
+            # pixels must still be recognised
+            dt = 'float64'
+            sn = rn = [0.1, -1e30][(case['i'] // 8) % 2]
+            run.hist['float64 files with a nodata value that is not a float32 number'] += 1
         pair = fusion.write_pair(tmp, 'c11', src, ref, s, r, sv, rv, src_kw=dict(descriptions=descr_s),
-                                 ref_kw=dict(descriptions=descr_r), src_nodata=case['src_nodata'], ref_nodata=case['ref_nodata'])
-        run.hist[f"nodata encoding src={case['src_nodata']} ref={case['ref_nodata']}"] += 1
+                                 ref_kw=dict(descriptions=descr_r), src_nodata=sn, ref_nodata=rn, dtype=dt)
+        run.hist[f"nodata encoding src={sn} ref={rn}"] += 1
         model_stats = None
         if modelled:
             model_stats = []
